@@ -43,6 +43,7 @@ namespace {
 using TCM = mc::Tracked<mc::copy_move>;
 using TMO = mc::Tracked<mc::move_only>;
 using TCO = mc::Tracked<mc::copy_only>;
+using TR3 = mc::Tracked<mc::rule3>; // defaulted (trivial) copy assignment, user-provided copy constructor + destructor, no move members
 
 template <typename T>
 std::string tname()
@@ -53,6 +54,8 @@ std::string tname()
         return "Tracked<move-only>";
     } else if constexpr (std::is_same_v<T, TCO>) {
         return "Tracked<copy-only>";
+    } else if constexpr (std::is_same_v<T, TR3>) {
+        return "Tracked<rule-of-3-violator>";
     } else {
         return "Tracked<copy+move>";
     }
@@ -2013,6 +2016,9 @@ int main(int argc, char** argv)
     add_multiset<int, 4, HalfLess, 6>(m, both, 4);
     add_multiset<TMO, 4, LMo, 4>(m, both, 4);
     add_multiset<TCO, 4, LCo, 4>(m, both, 4);
+    add_set<S, TR3, 3, etl::less<TR3>, 4>(m, both, 2);
+    add_set<F, TR3, 3, etl::less<TR3>, 4>(m, both, 2);
+    add_multiset<TR3, 4, etl::less<TR3>, 4>(m, both, 4);
 #endif
 #if !defined(MC_PART) || MC_PART == 17
     // capacity boundaries of static_set beyond 5, key universe = capacity + 2
